@@ -618,6 +618,7 @@ def run(chk):
     d1b(chk, prog)
     from . import C07
     C07.d6(chk, prog)            # subtraction / intersection are per chromosome: the pairing of by_shared_chroms (C07-D6 rule)
+    C07.d7(chk, prog)            # ... and select, per range of the other table, exactly the overlapping rows (clipped in trim mode), nested rows and repeated starts included (C07-D7 rule)
     d2(chk, prog)
     d3b(chk, prog)
     d3(chk, prog)
